@@ -97,7 +97,8 @@ Definition lsnap_ok (c : cfg) (table : list (N * tx)) (alls : list N) (x : lsnap
                      | Some t => (tsender t =? a) && (tnonce t =? fst ki) && mem (snd ki) alls
                      | None => false
                      end) (combine keys ids) &&
-  gap_free_b ps && forallb (fun n => mem n keys) ps.
+  gap_free_b ps && forallb (fun n => mem n keys) ps &&
+  list_eqb ps (firstn (length ps) keys).   (* processables = the sender's lowest pooled nonces *)
 
 Definition snap_ok (c : cfg) (table : list (N * tx)) (s : snap) : bool :=
   strictly_asc (s_all s) && (length (s_all s) <=? max_txs c)%nat && list_eqb (s_queue s) (s_all s) &&
